@@ -64,7 +64,7 @@ class ChainRecorder:
         self.Environ.GetLR, self.MP._update_mps, self.gs.single_sweep = self.o_get, self.o_upd, self.o_sw
 
 
-def _big_system(seed):
+def _big_system(seed, cplx_h=False):
     """a vibrational chain whose local problems exceed 1000 coefficients so that the iterative eigensolver is used."""
     from renormalizer.model import Model, Op
     from renormalizer.model import basis as ba
@@ -93,6 +93,21 @@ def _big_system(seed):
         mats[i] = basis[i].op_mat(Op("x", basis[i].dof))
         mats[i + 1] = basis[i + 1].op_mat(Op("x", basis[i + 1].dof))
         dense += c * kron(mats)
+    if cplx_h:
+        # complex Hermitian hopping  c b+_i b_{i+1} + conj(c) b_i b+_{i+1}
+        dense = dense.astype(complex)
+        for i in range(len(basis) - 1):
+            c = complex(rng.uniform(-0.4, 0.4), rng.uniform(0.2, 0.5))
+            terms.append(Op(r"b^\dagger b", [basis[i].dof, basis[i + 1].dof], c))
+            terms.append(Op(r"b b^\dagger", [basis[i].dof, basis[i + 1].dof], c.conjugate()))
+            up_i, dn_i = basis[i].op_mat(Op(r"b^\dagger", basis[i].dof)), basis[i].op_mat(Op("b", basis[i].dof))
+            up_j, dn_j = basis[i + 1].op_mat(Op(r"b^\dagger", basis[i + 1].dof)), basis[i + 1].op_mat(Op("b", basis[i + 1].dof))
+            for ma, mb, f in ((up_i, dn_j, c), (dn_i, up_j, c.conjugate())):
+                mats = list(eye)
+                mats[i], mats[i + 1] = ma, mb
+                dense = dense + f * kron(mats)
+        if np.linalg.norm(dense - dense.conj().T) > 1e-10:
+            raise MachineryError("the complex test Hamiltonian is not Hermitian")
     model = Model(basis, terms)
     return model, Mpo(model), dense, dims
 
@@ -304,12 +319,13 @@ def _big_cases(args):
     from renormalizer.mps import gs, Mps
     from renormalizer.utils import OptimizeConfig
     from .. import states as st
-    seed, method, nroots, M, cplx = args
+    seed, method, nroots, M, cplx = args[:5]
+    cplx_h = bool(args[5]) if len(args) > 5 else False
     out = {"cases": [], "viol": [], "traces": 0, "stats": {"micro": 0, "min_gap": 1.0}}
-    detail = {"system": "vibrational chain 3-6-6-6-3", "method": method, "nroots": nroots, "M": M, "algo": "davidson", "complex_start": cplx}
+    detail = {"system": "vibrational chain 3-6-6-6-3", "method": method, "nroots": nroots, "M": M, "algo": "davidson", "complex_start": cplx, "complex_hamiltonian": cplx_h}
     out["cases"].append(json.dumps(detail))
     try:
-        model, mpo, H, dims = _big_system(seed)
+        model, mpo, H, dims = _big_system(seed, cplx_h)
         exact = np.linalg.eigvalsh(H)
         reseed_global(seed, "c08-big", method, nroots)
         mps = Mps.random(model, 0, M, percent=1.0)
@@ -631,6 +647,8 @@ def run(ctx):
     res = pmap(_chain_cases, [(jobs[i::n], ctx.seed, schedules) for i in range(n) if jobs[i::n]], chunksize=1)
     big = [(ctx.seed, m, k, M, False) for m in ("1site", "2site") for k in (1, 3) for M in ((8, 18) if tier == "quick" else (6, 10, 14, 18))]
     big += [(ctx.seed, m, 1, M, True) for m in ("1site", "2site") for M in ((18,) if tier == "quick" else (10, 18))]
+    # complex Hermitian Hamiltonian, several roots, iterative solver
+    big += [(ctx.seed, m, k, 18, True, True) for m, k in ((("2site", 2), ("1site", 3)) if tier == "quick" else (("2site", 2), ("1site", 3), ("2site", 3), ("1site", 2)))]
     res += pmap(_big_cases, big, chunksize=1)
     res += pmap(_qc_cases, [(ctx.seed, k) for k in range(6 if tier == "quick" else 24)], chunksize=1)
     # ---------------------------------------------------------------- tree runs
